@@ -319,8 +319,10 @@ func c10Case(ctx *genCtx, ts *tape.Set, dir string) *genResult {
 		}
 	}
 	reported := strings.Count(r.Stderr, "changing function call name from ")
-	// a run that fails later may have announced renames it never wrote; it must never write more than it announced
-	if res.V == nil && (changedIdents > reported || (r.Exit == 0 && changedIdents != reported)) {
+	// a run that fails later may have announced renames it never wrote, and one call can be renamed twice
+	// (deriveSort -> deriveSort_ by -autoname in the first pass, deriveSort_ -> deriveSortNC by -dedup in the
+	// second): fewer changed identifiers than announcements is legitimate, more is not
+	if res.V == nil && changedIdents > reported {
 		res.V = &genViolation{Clause: "renamed-more-than-reported", Detail: fmt.Sprintf("flags %v: %d call identifiers changed in the user files, goderive reported %d renames: %s", flags, changedIdents, reported, firstLines(r.Stderr, 4)), Facts: facts}
 		return res
 	}
